@@ -162,20 +162,7 @@ def in_class(text):
         return out
 
     asg = all_assigns(prog.init, []) + all_assigns(prog.body, [])
-    # greatest fixed point: start from all, remove those with a non-finite rhs or self-growing updates
-    fin = set(assigned)
-    while True:
-        bad = {t for t, r in asg if not rhs_finite(r, fin)}
-        # x = x + 1 style growth: a variable depending on itself through arithmetic is not syntactically finite
-        for t, r in asg:
-            if isinstance(r, (L.RPoly, L.RChoice)):
-                polys = [r.poly] if isinstance(r, L.RPoly) else r.polys
-                for p in polys:
-                    if t in p.variables() and p != L.Poly.var(t) and not _involution(p, t):
-                        bad.add(t)
-        if not (bad & fin):
-            break
-        fin -= bad
+    fin = _least_finite(asg, assigned, rhs_finite)
     finite |= fin
     # variables whose only assignment in the loop is an unconditioned draw with constant parameters are fresh in every iteration
     iid = set()
@@ -244,19 +231,37 @@ def syntactic_finite(prog):
         return out
 
     asg = all_assigns(prog.init, []) + all_assigns(prog.body, [])
-    fin = set(assigned)
-    while True:
-        bad = {t for t, r in asg if not rhs_finite(r, fin)}
-        for t, r in asg:
-            if isinstance(r, (L.RPoly, L.RChoice)):
-                polys = [r.poly] if isinstance(r, L.RPoly) else r.polys
-                for p in polys:
-                    if t in p.variables() and p != L.Poly.var(t) and not _involution(p, t):
-                        bad.add(t)
-        # a variable fed (through any chain) by a self-growing one is removed by the fixed point above
-        if not (bad & fin):
-            break
-        fin -= bad
+    return _least_finite(asg, assigned, rhs_finite)
+
+
+def _least_finite(asg, assigned, rhs_finite):
+    """LEAST fixed point: a variable is syntactically finite if every one of its assignments is a finite draw, a constant, or a
+    choice / polynomial over variables ALREADY known to be finite; a reference to itself is allowed only as the identity or the
+    involution 1 - t.  (A greatest fixed point would accept mutually recursive growth such as `x, y = y, x; y = x**2`.)"""
+    fin = set()
+    changed = True
+    while changed:
+        changed = False
+        for t in assigned:
+            if t in fin:
+                continue
+            ok = True
+            for tt, r in asg:
+                if tt != t:
+                    continue
+                if isinstance(r, (L.RPoly, L.RChoice)):
+                    polys = [r.poly] if isinstance(r, L.RPoly) else r.polys
+                    for p in polys:
+                        if t in p.variables():
+                            if not (p == L.Poly.var(t) or _involution(p, t)):
+                                ok = False
+                        elif not (p.variables() & assigned <= fin):
+                            ok = False
+                elif not rhs_finite(r, fin):
+                    ok = False
+            if ok:
+                fin.add(t)
+                changed = True
     return fin
 
 
